@@ -395,6 +395,21 @@ fn dispatch(name: &str, a: &mut Args) -> String {
 		},
 		"node_announcement_probe" => node_announcement_probe(a),
 		"node_announcement_addr_probe" => node_announcement_addr_probe(a),
+		"invoice_signing_pubkey_probe" => {
+			// <signing id> <has issuer> <issuer id> <has paths> <#paths> then per path: <#hops> <hop ids...>
+			let signing = a.u8();
+			let issuer = if a.bool() { Some(a.u8()) } else { let _ = a.u8(); None };
+			let has_paths = a.bool();
+			let np = a.usize();
+			let mut paths = Vec::new();
+			for _ in 0..np {
+				let nh = a.usize();
+				paths.push((0..nh).map(|_| a.u8()).collect::<Vec<u8>>());
+			}
+			let r = lightning::offers::invoice::verif_hooks::check_invoice_signing_pubkey_probe(
+				signing, issuer, if has_paths { Some(paths) } else { None });
+			format!("{}", r as u8)
+		},
 		"secret_store_honest" => {
 			// provide the seed-derived secrets for the top m indices, then read every one back
 			use lightning::ln::chan_utils::{build_commitment_secret, CounterpartyCommitmentSecrets};
